@@ -415,6 +415,9 @@ func c12GenVal(r *RNG, k c12Kind, simple bool) reflect.Value {
 }
 
 // fill a template of the (original) config type
+// default slices handed out for the template being filled, by type (see c12FillTemplate)
+var c12SharedDefaults = map[reflect.Type]reflect.Value{}
+
 func c12FillTemplate(r *RNG, v reflect.Value) {
 	t := v.Type()
 	for i := 0; i < t.NumField(); i++ {
@@ -439,6 +442,18 @@ func c12FillTemplate(r *RNG, v reflect.Value) {
 			continue
 		}
 		val := c12GenVal(r, c12Classify(ft), false)
+		if st.Kind() == reflect.Slice && val.IsValid() && val.Kind() == reflect.Slice && val.Type() == st {
+			// two leaves of one slice type often start from ONE default slice (both initialised from the same package-level
+			// variable), with room to spare: a flag given for one must not show through the other
+			if prev, ok := c12SharedDefaults[st]; ok && r.Chance(50) {
+				val = prev
+			} else if val.Len() > 0 {
+				grown := reflect.MakeSlice(st, val.Len(), val.Len()+4)
+				reflect.Copy(grown, val)
+				val = grown
+				c12SharedDefaults[st] = val
+			}
+		}
 		if ft.Kind() == reflect.Ptr {
 			p := reflect.New(st)
 			p.Elem().Set(val)
@@ -1180,6 +1195,7 @@ func c12Case(c *Ctx, r *RNG, res *Result, pk string, idx int) {
 		return
 	}
 	tmplA := reflect.New(T)
+	c12SharedDefaults = map[reflect.Type]reflect.Value{}
 	c12FillTemplate(r, tmplA.Elem())
 	tmplB := c12Clone(tmplA) // pristine copy: the helpers write through into the template they were given (known, outside C12)
 	tmplC := c12Clone(tmplA)
